@@ -356,6 +356,8 @@ def rule_wiring(chk):
     c03.rule_bounds(chk)
     # groups, sub-groups, their conditions and iteration loops nest in the generated compute() as the group tree says (rule shared with C03)
     c03.rule_top(chk, tpl)
+    # NP_DEST / NP_SRC of the generated loops are what the array says now: the wrapper's size() asks the array on every call (rule shared with C03 / C04)
+    c03.rule_wrapper(chk, tpl)
     # the wrapper that `src.X` / `dst.X` resolve through must (re)bind every property AND every constant whenever an array is set
     pick = c03.simplest
     lines2 = MT.skeleton(tpl.fn('__template__'), choose=pick)
